@@ -385,7 +385,7 @@ def run_harness(croot, h, logdir, playback=False, kname=''):
     r['rc'] = rc
     r['wall'] = dt
     r['timeout'] = (rc == -9)
-    r['oom'] = ('Status: ERROR' in out or 'std::bad_alloc' in out or 'Out of memory' in out or 'memory exhausted' in out.lower())
+    r['oom'] = ('Status: ERROR' in out or 'std::bad_alloc' in out or 'out of memory' in out.lower() or 'memory exhausted' in out.lower())
     return r, out
 
 
